@@ -32,6 +32,10 @@ def mods():
     return kc, km, hy, cu, ops
 
 
+def preload():
+    mods()
+
+
 # ----------------------------------------------------------------------------------------------
 # metric
 # ----------------------------------------------------------------------------------------------
@@ -229,7 +233,7 @@ class _R:
 
 
 def kcenters_job(N, mode, k=None, warm=0, tri=False, entry='function', shortcut=None,
-                 approx=False):
+                 approx=False, props=('C01', 'C02')):
     """mode: 'n' (n_clusters only), 'r' (radius only), 'both', 'n-None' (dist_cutoff=None),
     'r-None' (n_clusters=None).  warm = number of initial centers (distinct frames, symbolic).
     shortcut: None = plain run only; 'compare' = run with and without the triangle shortcut."""
@@ -335,10 +339,13 @@ def kcenters_job(N, mode, k=None, warm=0, tri=False, entry='function', shortcut=
             co = _concrete_out(r1, sc)
             out['out'] = co
             dfun = lambda i, j: float(T[int(i)][int(j)])
-            bad = run_oracle(oracle_consistent(N, _R(co), dfun))
-            g, _ = oracle_greedy(N, co['center_indices'], co['distances'], k_req, float(cut) if cut is not None else 0.0,
-                                 dfun, warm, cold=not warm)
-            bad += run_oracle(g)
+            bad = []
+            if 'C01' in props:
+                bad += run_oracle(oracle_consistent(N, _R(co), dfun))
+            if 'C02' in props:
+                g, _ = oracle_greedy(N, co['center_indices'], co['distances'], k_req, float(cut) if cut is not None else 0.0,
+                                     dfun, warm, cold=not warm)
+                bad += run_oracle(g)
             if not np.array_equal(Xc, np.arange(N)):
                 bad.append('input-data-modified')
             if r2 is not None:
@@ -364,9 +371,12 @@ def kcenters_job(N, mode, k=None, warm=0, tri=False, entry='function', shortcut=
             return PathOut([('no-exception-on-admissible-input', ok)], {}, witness, exc=type(exc).__name__,
                            desc='raises %s' % type(exc).__name__)
         obs = []
-        obs += oracle_consistent(N, res, M.d)
-        g, r = oracle_greedy(N, list(res.center_indices), cells(res.distances), k_req, cutoff, M.d, warm, cold=not warm)
-        obs += g
+        if 'C01' in props:
+            obs += oracle_consistent(N, res, M.d)
+        r = None
+        if 'C02' in props:
+            g, r = oracle_greedy(N, list(res.center_indices), cells(res.distances), k_req, cutoff, M.d, warm, cold=not warm)
+            obs += g
         obs.append(('input-data-unmodified', conj([a == b for a, b in zip(X.cells(), X0.cells())])))
         if init0:
             obs.append(('init-centers-unmodified', conj([a == b for a, b in zip(kwargs['init_centers'], init0)])))
@@ -392,3 +402,313 @@ def kcenters_job(N, mode, k=None, warm=0, tri=False, entry='function', shortcut=
         so = _res_out(res)
         return PathOut(obs, so, witness, desc='k=%d centers' % len(res.center_indices))
     return path
+
+
+# ----------------------------------------------------------------------------------------------
+# k-medoids / hybrid jobs (C01, C09)
+# ----------------------------------------------------------------------------------------------
+
+def sym_consistent_state(ctx, M, N, k):
+    """An arbitrary state (centers, labels, distances) satisfying the C01 oracle: k distinct center
+    frames, every frame labelled with a nearest center, distances accordingly."""
+    c = [core.fresh_int('c', 0, N - 1) for _ in range(k)]
+    for a, b in itertools.combinations(c, 2):
+        ctx.add(a.t != b.t)
+    a = [core.fresh_int('a', 0, k - 1) for _ in range(N)]
+    d = []
+    for i in range(N):
+        di = M.d(i, sel(c, a[i]))
+        d.append(di)
+        for j in range(k):
+            ctx.add(core.to_z3_bool(M.d(i, c[j]) >= di))
+    for j in range(k):
+        ctx.add(core.to_z3_bool(sel(a, c[j]) == j))
+    return c, a, d
+
+
+def cost_of(d):
+    s = None
+    for x in d:
+        q = core.fl_square(x) if isinstance(x, SVal) else x * x
+        s = q if s is None else s + q
+    return s
+
+
+def kmedoids_job(N, k, entry='pam', sweeps=1, warm=None, proposals=False, tri=False, mode='n',
+                 props=('C01', 'C09')):
+    """entry: 'pam'      one _kmedoids_pam_update sweep from an arbitrary consistent state (inductive step)
+              'kmedoids' the public function (cold, or warm in {'centers','labels','all'})
+              'hybrid'   kcenters + sweeps; 'KMedoids' / 'KHybrid' estimator forms."""
+    kc, km, hy, cu, ops = mods()
+
+    def path(ctx):
+        M = Metric(ctx, N, triangle=tri)
+        X = SArr.from_typed(np.arange(N))
+        X0 = X.copy()
+        rnd_log = loader_stubs().current_log()
+        rs = loader_stubs().SymRandom()
+        pre = None
+        prp = None
+        cutoff = None
+        kw = {}
+        if entry == 'pam' or warm:
+            c0, a0, d0 = sym_consistent_state(ctx, M, N, k)
+            pre = (list(c0), list(a0), list(d0))
+        if proposals:
+            # explicit proposals: any frame that is not the center of another cluster
+            prp = [core.fresh_int('prop', 0, N - 1) for _ in range(k)]
+        if entry == 'pam' and proposals:
+            for j in range(k):
+                for l in range(k):
+                    if l != j:
+                        ctx.add(prp[j].t != pre[0][l].t)
+
+        def build_args():
+            if pre is None:
+                return None
+            return (list(pre[0]), funcs.np_array(list(pre[1]), dtype=int), funcs.np_array(list(pre[2]), dtype=float))
+
+        exc = None
+        res = None
+        res_kc = None
+        args = build_args()
+        try:
+            if entry == 'pam':
+                ci, di, ai, ctrs = km._kmedoids_pam_update(
+                    X, M, args[0], args[1], args[2], proposals=list(prp) if prp else None, random_state=rs)
+                res = cu.ClusterResult(center_indices=ci, distances=di, assignments=ai, centers=ctrs)
+            elif entry in ('kmedoids', 'KMedoids'):
+                kwa = dict(n_iters=sweeps)
+                if warm in ('centers', 'all'):
+                    kwa['cluster_center_inds'] = args[0]
+                if warm in ('labels', 'all'):
+                    kwa['assignments'] = args[1]
+                    kwa['distances'] = args[2]
+                if not warm:
+                    kwa['n_clusters'] = k
+                if entry == 'kmedoids':
+                    res = km.kmedoids(X, M, random_state=rs, proposals=list(prp) if prp else None, **kwa)
+                else:
+                    n_it = kwa.pop('n_iters')
+                    ncl = kwa.pop('n_clusters', None)
+                    est = km.KMedoids(M, n_clusters=ncl, n_iters=n_it)
+                    est.fit(X, **kwa)
+                    res = cu.ClusterResult(center_indices=est.center_indices_, distances=est.distances_,
+                                           assignments=est.labels_, centers=est.centers_)
+            elif entry in ('hybrid', 'KHybrid'):
+                if mode in ('r', 'both'):
+                    cutoff = core.fresh_real('cutoff')
+                    ctx.add(core.to_z3_real(cutoff) > 0)
+                    kw['dist_cutoff'] = cutoff
+                if mode in ('n', 'both'):
+                    kw['n_clusters'] = k
+                if 'C09' in props:
+                    res_kc = kc.kcenters(X.copy(), M, **kw)
+                if entry == 'hybrid':
+                    res = hy.hybrid(X, M, n_iters=sweeps, random_state=rs, **kw)
+                else:
+                    est = hy.KHybrid(M, n_clusters=kw.get('n_clusters'), cluster_radius=kw.get('dist_cutoff'),
+                                     kmedoids_updates=sweeps, random_state=rs)
+                    est.fit(X)
+                    res = cu.ClusterResult(center_indices=est.center_indices_, distances=est.distances_,
+                                           assignments=est.labels_, centers=est.centers_)
+            else:
+                raise ValueError(entry)
+        except Exception as e:
+            exc = e
+
+        draws = [v for _, v in rnd_log]
+
+        def witness(model):
+            T = M.table(model)
+            cut = ev(model, cutoff) if cutoff is not None else None
+            sc = scale_of([x for row in T for x in row] + ([cut] if cut is not None else []))
+            metric, Mx = concrete_metric(T, sc)
+            dv = [int(ev(model, v)) for v in draws]
+            inputs = {'N': N, 'k': k, 'entry': entry, 'sweeps': sweeps, 'warm': warm, 'mode': mode,
+                      'D': [[float(x) for x in row] for row in T], 'random_draws': dv,
+                      'dist_cutoff': float(cut) if cut is not None else None}
+            crs = ReplayRandom(dv)
+            out = {'inputs': inputs}
+            Xc = np.arange(N)
+            cpre = None
+            if pre is not None:
+                cpre = ([int(ev(model, v)) for v in pre[0]], np.array([int(ev(model, v)) for v in pre[1]]),
+                        np.array([float(ev(model, v)) * sc for v in pre[2]], dtype=float))
+                inputs['pre_state'] = {'centers': cpre[0], 'labels': cpre[1].tolist(),
+                                       'distances': [float(ev(model, v)) for v in pre[2]]}
+            cprops = [int(ev(model, v)) for v in prp] if prp else None
+            inputs['proposals'] = cprops
+            snap = None if cpre is None else (list(cpre[0]), cpre[1].copy(), cpre[2].copy())
+            with core.concrete_mode(), PatchedRandom(km, hy, crs):
+                try:
+                    if entry == 'pam':
+                        ci, di, ai, ctrs = km._kmedoids_pam_update(
+                            Xc, metric, list(cpre[0]), cpre[1], cpre[2], proposals=cprops, random_state=crs)
+                        r1 = cu.ClusterResult(center_indices=ci, distances=di, assignments=ai, centers=ctrs)
+                    elif entry in ('kmedoids', 'KMedoids'):
+                        kwa = dict(n_iters=sweeps)
+                        if warm in ('centers', 'all'):
+                            kwa['cluster_center_inds'] = list(cpre[0])
+                        if warm in ('labels', 'all'):
+                            kwa['assignments'] = cpre[1]
+                            kwa['distances'] = cpre[2]
+                        if not warm:
+                            kwa['n_clusters'] = k
+                        if entry == 'kmedoids':
+                            r1 = km.kmedoids(Xc, metric, random_state=crs, proposals=cprops, **kwa)
+                        else:
+                            n_it = kwa.pop('n_iters')
+                            ncl = kwa.pop('n_clusters', None)
+                            est = km.KMedoids(metric, n_clusters=ncl, n_iters=n_it)
+                            est.fit(Xc, **kwa)
+                            r1 = est.result_
+                    else:
+                        kw2 = {}
+                        if 'dist_cutoff' in kw:
+                            kw2['dist_cutoff'] = float(cut * sc)
+                        if 'n_clusters' in kw:
+                            kw2['n_clusters'] = k
+                        if entry == 'hybrid':
+                            r1 = hy.hybrid(Xc, metric, n_iters=sweeps, random_state=crs, **kw2)
+                        else:
+                            est = hy.KHybrid(metric, n_clusters=kw2.get('n_clusters'), cluster_radius=kw2.get('dist_cutoff'),
+                                             kmedoids_updates=sweeps, random_state=crs)
+                            est.fit(Xc)
+                            r1 = est.result_
+                except Exception as e:
+                    out['exception'] = repr(e)
+                    out['out'] = None
+                    out['violated'] = ['raises ' + type(e).__name__]
+                    out['signature'] = 'exception:%s:%s' % (type(e).__name__, entry)
+                    return out
+            co = _concrete_out(r1, sc)
+            out['out'] = co
+            dfun = lambda i, j: float(T[int(i)][int(j)])
+            bad = []
+            oc = run_oracle(oracle_consistent(N, _R(co), dfun))
+            if 'C01' in props:
+                bad += oc
+            elif 'C09' in props:
+                bad += [x for x in oc if x in ('center-index-in-range', 'center-is-frame-at-its-index', 'shape')]
+            if 'C09' in props:
+                if len(co['center_indices']) != k and (entry in ('pam', 'kmedoids', 'KMedoids')):
+                    bad.append('number-of-clusters-changed')
+                if cpre is not None and entry == 'pam':
+                    oldc = sum(float(ev(model, v)) ** 2 for v in pre[2])
+                    newc = sum(x * x for x in co['distances'])
+                    if newc > oldc * (1 + 1e-12) + 1e-15:
+                        bad.append('cost-increased')
+                if entry in ('hybrid', 'KHybrid'):
+                    with core.concrete_mode():
+                        rk = kc.kcenters(np.arange(N), metric, **kw2)
+                    oldc = sum((float(x) / sc) ** 2 for x in rk.distances)
+                    newc = sum(x * x for x in co['distances'])
+                    if newc > oldc * (1 + 1e-12) + 1e-15:
+                        bad.append('hybrid-cost-above-kcenters-cost')
+                if cprops is not None and crs.pos != 0:
+                    bad.append('random-generator-consulted-although-proposals-given')
+                if entry in ('kmedoids', 'hybrid') and cprops is None:
+                    # fixed seed => same outcome whatever the global generator state is
+                    outs = []
+                    for gseed in (1, 2):
+                        np.random.seed(gseed)
+                        with core.concrete_mode():
+                            if entry == 'kmedoids':
+                                kwa2 = dict(n_iters=sweeps)
+                                if warm in ('centers', 'all'):
+                                    kwa2['cluster_center_inds'] = list(snap[0])
+                                if warm in ('labels', 'all'):
+                                    kwa2['assignments'] = snap[1].copy()
+                                    kwa2['distances'] = snap[2].copy()
+                                if not warm:
+                                    kwa2['n_clusters'] = k
+                                rr = km.kmedoids(np.arange(N), metric, random_state=1234, **kwa2)
+                            else:
+                                rr = hy.hybrid(np.arange(N), metric, n_iters=sweeps, random_state=1234, **kw2)
+                        outs.append(_concrete_out(rr, sc))
+                    if outs[0] != outs[1]:
+                        bad.append('not-reproducible-with-fixed-seed')
+            if not np.array_equal(Xc, np.arange(N)):
+                bad.append('input-data-modified')
+            if snap is not None and entry != 'pam':
+                if list(cpre[0]) != snap[0] and warm in ('centers', 'all'):
+                    bad.append('caller-center-list-modified')
+            out['violated'] = bad
+            return out
+
+        if exc is not None:
+            return PathOut([('no-exception-on-admissible-input', False)], {}, witness, exc=type(exc).__name__,
+                           desc='raises %s: %s' % (type(exc).__name__, str(exc)[:100]))
+        oc = oracle_consistent(N, res, M.d)
+        obs = []
+        if 'C01' in props:
+            obs += oc
+        elif 'C09' in props:
+            obs += [x for x in oc if x[0] in ('center-index-in-range', 'center-is-frame-at-its-index', 'shape')]
+        if 'C09' in props:
+            if entry in ('pam', 'kmedoids', 'KMedoids'):
+                obs.append(('number-of-clusters-kept', len(res.center_indices) == k))
+            if entry == 'pam':
+                obs.append(('cost-never-increases', cost_of(cells(res.distances)) <= cost_of(pre[2])))
+            if res_kc is not None:
+                obs.append(('hybrid-cost-at-most-kcenters-cost',
+                            cost_of(cells(res.distances)) <= cost_of(cells(res_kc.distances))))
+            if proposals:
+                obs.append(('no-random-draw-when-proposals-are-supplied', len(draws) == 0))
+        obs.append(('input-data-unmodified', conj([a == b for a, b in zip(X.cells(), X0.cells())])))
+        return PathOut(obs, _res_out(res), witness, desc='%s -> %d centers' % (entry, len(res.center_indices)))
+    return path
+
+
+def loader_stubs():
+    from symnp import stubs
+    return stubs
+
+
+class ReplayRandom:
+    """Concrete generator replaying the solver's draws (RandomState and Generator API subset)."""
+
+    def __init__(self, draws):
+        self.draws = list(draws)
+        self.pos = 0
+
+    def _next(self):
+        if self.pos >= len(self.draws):
+            raise RuntimeError('replay ran out of recorded random draws')
+        v = self.draws[self.pos]
+        self.pos += 1
+        return v
+
+    def choice(self, a, size=None, replace=True, p=None):
+        a = np.asarray(a)
+        if len(a) == 0:
+            raise ValueError("'a' cannot be empty unless no samples are taken")
+        return a[self._next()]
+
+    def randint(self, low, high=None, size=None, **kw):
+        return self._next()
+
+    def integers(self, low, high=None, size=None, **kw):
+        if size is None:
+            return self._next()
+        return np.array([self._next() for _ in range(int(size))], dtype=np.int64)
+
+
+class PatchedRandom:
+    """During a concrete replay the repo's check_random_state / default_rng must hand back the
+    replay generator (the real ones would reject it)."""
+
+    def __init__(self, km, hy, rs):
+        self.mods = [km, hy, loader.load('enspara.cluster.kcenters'), loader.load('enspara.mpi.ops')]
+        self.rs = rs
+        self.saved = []
+
+    def __enter__(self):
+        from symnp import stubs
+        self.prev = stubs.REPLAY_RANDOM[0]
+        stubs.REPLAY_RANDOM[0] = self.rs
+
+    def __exit__(self, *a):
+        from symnp import stubs
+        stubs.REPLAY_RANDOM[0] = self.prev
